@@ -1033,6 +1033,7 @@ pub fn run(p: &Params, sum: &mut Summary) {
         None => Box::new(0..p.iters),
     };
     let mut total = 0u64;
+    let mut acc = crate::common::Acc::default();
     for index in range {
         let mut rng = Rng::new(mix(p.seed ^ 0xC15C_15C1, index));
         let steps = if p.miri {
@@ -1082,12 +1083,11 @@ pub fn run(p: &Params, sum: &mut Summary) {
                     ("avoid_known.previous_gen_packets_withheld_during_retention", s.suppressed_old_gen),
                     ("avoid_known.sends_withheld_during_retention_inside_update_window", s.suppressed_sends),
                 ] {
-                    sum.count(k, v);
+                    acc.count("", k, v);
                 }
-                sum.max("max_key_generation", s.max_gen as i64);
-                sum.max("max_sealed_with_one_generation", s.max_sealed_per_gen as i64);
-                sum.min(
-                    "min_headroom_to_confidentiality_limit",
+                acc.max("", "max_key_generation", s.max_gen as i64);
+                acc.max("", "max_sealed_with_one_generation", s.max_sealed_per_gen as i64);
+                acc.min("", "min_headroom_to_confidentiality_limit",
                     o.conf_limit as i64 - s.max_sealed_per_gen as i64,
                 );
                 let nontrivial = s.updates >= 1 && s.opened >= 3;
@@ -1118,6 +1118,7 @@ pub fn run(p: &Params, sum: &mut Summary) {
             }
         }
     }
+    acc.flush(sum);
     if total == 0 && p.only.is_none() {
         sum.inconclusive.push("keys: no step was run".into());
     }
